@@ -195,7 +195,9 @@ def ref_knn_counts(arr, dim_x, dim_y, k):
     dim, T = arr.shape
     kxz, kyz, kz = [], [], []
     for i in range(T):
-        d = np.abs(arr - arr[:, [i]])
+        # the kernel subtracts float32 values in float32; differences that round to the same
+        # float32 tie there, so the reference forms them in the precision of its input
+        d = np.abs(arr - arr[:, [i]]).astype(float)
         dj = d.max(axis=0)
         eps = np.sort(dj)[k]
         dx = d[:dim_x].max(axis=0)
@@ -505,10 +507,10 @@ def kernel_level(ctx, rng, nprng, quick):
 
     bad = cor.run()
     # second pass for the mirrored MI matrix layout (needs the mimap answers)
-    for f in getattr(cmp_mihist, "deferred", []):
-        msg = f()
-        if msg:
-            ctx.obligation("correspondence: mirrored MI matrix layout", "correspondence", False, msg)
+    msgs = [m for m in (f() for f in getattr(cmp_mihist, "deferred", [])) if m]
+    ctx.obligation(f"correspondence: MI from the model's counts in the model's mirrored layout == "
+                   f"climate mutual_information ({len(cmp_mihist.deferred)} matrices)", "correspondence",
+                   not msgs, "\n".join(msgs[:3]))
     cmp_mihist.deferred = []
     return bad
 
@@ -741,7 +743,7 @@ def check_max_vs_all(ctx, meth, params, d, allv, mv, ml, use_abs, diag_free):
 
 def oracle_coupling(ctx, rng, nprng, quick):
     from pyunicorn.funcnet import CouplingAnalysis
-    ncases = 150 if quick else 1500
+    ncases = 300 if quick else 2000
     for c in range(ncases):
         r = rng.random()
         if r < 0.55:
@@ -947,7 +949,7 @@ def oracle_periodic(ctx, rng, nprng, quick):
     tau = 0.. and reports lag = tau_max - tau (largest lag wins); mutual_information /
     information_transfer report lag = tau (smallest lag wins)."""
     from pyunicorn.funcnet import CouplingAnalysis
-    for c in range(30 if quick else 300):
+    for c in range(60 if quick else 400):
         p = rng.choice([2, 3])
         N = rng.choice([2, 3])
         tm = rng.randrange(p, p + 4)
@@ -1053,7 +1055,7 @@ def oracle_knn(ctx, rng, nprng, quick):
     from pyunicorn.funcnet._ext import numerics as FK
     from pyunicorn.funcnet import CouplingAnalysis
     from scipy import special
-    for c in range(40 if quick else 400):
+    for c in range(80 if quick else 400):
         T = rng.randrange(6, 40)
         dim = rng.choice([2, 2, 3, 4])
         k = rng.randrange(1, max(2, T // 2))
@@ -1072,7 +1074,7 @@ def oracle_knn(ctx, rng, nprng, quick):
                      {"array": lst(a32), "k": k, "expected": [ex, ey, ez],
                       "observed": [lst(kx), lst(ky), lst(kz)]})
     # the estimator on top of the kernel: psi(k) + mean(psi(k_z) - psi(k_xz) - psi(k_yz))
-    for c in range(6 if quick else 40):
+    for c in range(10 if quick else 60):
         T = rng.randrange(20, 60)
         N = 2
         tm = rng.choice([0, 1, 2])
@@ -1091,7 +1093,7 @@ def oracle_knn(ctx, rng, nprng, quick):
                     arr = arr.astype(np.float32)
                     arr -= arr.mean(axis=1).reshape(2, 1)
                     arr /= arr.std(axis=1).reshape(2, 1)
-                    kx, ky, kz = ref_knn_counts(arr.astype(float), 1, 1, knn)
+                    kx, ky, kz = ref_knn_counts(arr, 1, 1, knn)      # float32 differences
                     exp[i, j, tau] = special.digamma(knn) + np.mean(
                         special.digamma(kz) - special.digamma(kx) - special.digamma(ky))
         ctx.case(("knnmi", T, tm, knn, d.tobytes().hex()), True)
@@ -1111,7 +1113,7 @@ def oracle_knn(ctx, rng, nprng, quick):
 def oracle_pure_python(ctx, rng, nprng, quick):
     from pyunicorn.funcnet import CouplingAnalysis
     from pyunicorn.funcnet.coupling_analysis_pure_python import CouplingAnalysisPurePython
-    for c in range(40 if quick else 300):
+    for c in range(80 if quick else 400):
         T = rng.randrange(5, 40)
         N = rng.choice([2, 3, 4])
         tm = rng.randrange(0, min(4, (T - 3) // 2 + 1))
@@ -1203,7 +1205,7 @@ def oracle_climate(ctx, rng, nprng, quick):
             for cls in (TsonisClimateNetwork, SpearmanClimateNetwork, PartialCorrelationClimateNetwork,
                         MutualInfoClimateNetwork):
                 nets[cls.__name__], _ = make_climate(cls, base)
-        for c in range(100 if quick else 1000):
+        for c in range(200 if quick else 1200):
             T = rng.randrange(3, 60)
             N = rng.choice([2, 3, 4, 5])
             kind = rng.choice(["int", "white", "ar", "fewvalues"])
@@ -1345,7 +1347,7 @@ def cmp_sim(ctx, cls, got, exp, d, P, extra=None):
 
 def oracle_surrogates(ctx, rng, nprng, quick):
     from pyunicorn.timeseries import Surrogates
-    for c in range(40 if quick else 400):
+    for c in range(80 if quick else 500):
         N = rng.choice([2, 3, 4, 5])
         n = rng.randrange(3, 80)
         O = nprng.randn(N, n)
